@@ -11,48 +11,21 @@ def main(tier: str) -> int:
     slices = U.QUICK_SLICES if tier == "quick" else U.THOROUGH_SLICES
     res = campaign.run_slices(slices, timeout=1500 if tier == "thorough" else 400)
     states, trans, cov = slices_summary(run, res, "C01")
-    # state-graph comparison at statement granularity: every reachable idle state x every statement, on real Stream objects
-    from .. import writergraph as wg, writer as _w  # noqa: PLC0415
+    # state-graph comparison at call granularity: every reachable idle state x every public call, on real Stream objects; TLC judges
+    # each real edge twice: the Tier-1 inductive step on the real rows (a failure is a VIOLATION with the history that reaches the state)
+    # and equality with PyWriter (a difference is MODEL-DRIFT)
+    from .. import writergraph as wg  # noqa: PLC0415
 
     graph = {}
     # slice -> longest graph body walked per graph() call (None: not a GRAPHS slice)
-    plan = {"flow2": None, "nameq": None, "dtq": None, "ns": None, "flow3g": 1} if tier == "quick" else \
+    plan = {"flow2": None, "nameq": None, "dtq": None, "ns": None, "flow3g": 1, "wg-c18pq": None, "wg-c18d": None, "wg-c18g": 1} if tier == "quick" else \
            {"flow2": None, "nameq": None, "dtq": None, "ns": None, "flow3g": 2, "pfx": None, "quads": None, "qt": None, "graphs": 1,
-            "flow1": None, "flow1q": None, "wg-c18p": None, "wg-c18pq": None, "wg-c18d": None, "c20-small": None}
-    extra = dict(U.WG, **U.C20)
+            "flow1": None, "flow1q": None, "wg-c18p": None, "wg-c18pq": None, "wg-c18d": None, "wg-c18g": 2, "c20-small": None}
     for name, body_max in plan.items():
-        base = slices[name] if name in slices else U.THOROUGH_SLICES[name] if name in U.THOROUGH_SLICES else extra[name]
-        c = dict(base, CheckFits=False, AllowReject=True)   # the code's own (elision-aware) refusal; a refused call leaves a failed stream
-        idle, pools, gr = wg.model_idle_states(c)
-        idle = {k for k in idle if '"gcur":["none"]' in k}   # a public call starts and ends with every graph closed
-        try:
-            real_idle, trans_ = wg.walk(c, pools, body_max=body_max or 0)
-        except AttributeError as ex:       # the projection reads encoder internals; renamed internals degrade this Tier-2 comparison only
-            run.model_drift(f"state projection of Stream/TermEncoder unavailable ({ex}): state-graph comparison skipped")
+        st_, gst = wg.compare_slice(run, name, wg.slice_consts(name), body_max)
+        if st_ is None:
             break
-        judged_, gst = wg.judge_transitions(c, trans_)
-        mism = refused = 0
-        for tr in trans_:
-            o = judged_.get(tr["id"])
-            refused += "failed" in tr["to"]
-            if o is None:
-                mism += 1
-                if mism <= 2:
-                    run.model_drift(f"slice {name}: real call {tr['ops']} from a reachable state is not a behaviour of PyWriter")
-                continue
-            if o["bad"]:
-                env.machinery_failure(f"C01: PyWriter's own composite clause {o['bad']} fails on a call re-executed from a real state ({name})")
-            mrows = [x for op_rows in o["rows"] for x in op_rows]
-            if (wg.canon([_w.norm_row(x) for x in mrows]) != wg.canon([_w.norm_row(x) for x in tr["rows"]]) or wg.canon(o["to"]) != wg.canon(tr["to"])):
-                mism += 1
-                if mism <= 2:
-                    run.model_drift(f"slice {name}: call {tr['ops']}: rows or successor state differ between PyWriter and the real Stream "
-                                    f"(model -> {str(o['to'])[:80]}, real -> {str(tr['to'])[:80]})")
-        same = (real_idle <= idle) if body_max is not None else (idle == real_idle)
-        if not same:
-            run.model_drift(f"slice {name}: real Streams reach {len(real_idle)} idle states, PyWriter {len(idle)}")
-        graph[name] = {"model_idle_states": len(idle), "real_idle_states": len(real_idle), "same_state_set": idle == real_idle,
-                       "real_calls": len(trans_), "of_which_refused": refused, "calls_equal_to_model": len(trans_) - mism}
+        graph[name] = st_
         states += gst["states"]
         trans += gst["transitions"]
     cases, stats = campaign.writer_campaign(tier, seed, parse_entries=("flat", "to_graph"))
